@@ -350,10 +350,9 @@ func (k Keeper) ResetMetaDuration(ctx sdk.Context, meta *types.Metadata) {
 
 func (k Keeper) ExtendMetaDuration(ctx sdk.Context, dataId string, expiredAt uint64) {
 	meta, _ := k.GetMetadata(ctx, dataId)
-	newDuration := expiredAt - meta.CreatedAt
-	if meta.Duration < newDuration {
+	if meta.CreatedAt+meta.Duration < expiredAt {
 		k.removeDataExpireBlock(ctx, meta.DataId, meta.CreatedAt+meta.Duration)
-		meta.Duration = newDuration
+		meta.Duration = expiredAt - meta.CreatedAt
 		k.setDataExpireBlock(ctx, meta.DataId, expiredAt)
 		k.SetMetadata(ctx, meta)
 	}
